@@ -6,6 +6,7 @@ import (
 	"encoding/json"
 	"fmt"
 	"os"
+	"reflect"
 	"strings"
 )
 
@@ -223,3 +224,94 @@ func StrPlain(s string) bool {
 
 // DeepEq: structural equality (exported fields, nil-vs-empty sensitive), as the engine's snapshot comparison.
 func DeepEq(a, b any) bool { return Dump(a) == Dump(b) }
+
+var snaps []string
+
+func Snapshot(x any) int {
+	snaps = append(snaps, Dump(x))
+	return len(snaps) - 1
+}
+
+func SameAsSnapshot(h int, x any) bool { return snaps[h] == Dump(x) }
+
+// Havoc overwrites every mutable location reachable from x (exported fields, slice elements up to capacity, map
+// values plus one new key).
+func Havoc(x any) {
+	if Concrete() {
+		return
+	}
+	havoc(reflect.ValueOf(x), map[uintptr]bool{}, 0)
+}
+
+func havoc(v reflect.Value, seen map[uintptr]bool, depth int) {
+	if depth > 14 || !v.IsValid() {
+		return
+	}
+	switch v.Kind() {
+	case reflect.Ptr:
+		if v.IsNil() || seen[v.Pointer()] {
+			return
+		}
+		seen[v.Pointer()] = true
+		havoc(v.Elem(), seen, depth+1)
+	case reflect.Interface:
+		if !v.IsNil() {
+			havoc(v.Elem(), seen, depth+1)
+		}
+	case reflect.Struct:
+		for i := 0; i < v.NumField(); i++ {
+			if v.Type().Field(i).IsExported() {
+				havoc(v.Field(i), seen, depth+1)
+			}
+		}
+	case reflect.Slice:
+		if v.IsNil() {
+			return
+		}
+		full := v.Slice(0, v.Cap())
+		for i := 0; i < full.Len(); i++ {
+			havoc(full.Index(i), seen, depth+1)
+		}
+	case reflect.Map:
+		if v.IsNil() {
+			return
+		}
+		for _, k := range v.MapKeys() {
+			e := v.MapIndex(k)
+			if e.Kind() == reflect.String {
+				v.SetMapIndex(k, reflect.ValueOf("HAVOC-"+e.String()).Convert(e.Type()))
+			} else {
+				havoc(e, seen, depth+1)
+			}
+		}
+		kt := v.Type().Key()
+		switch kt.Kind() {
+		case reflect.Int32, reflect.Int, reflect.Int64:
+			nk := reflect.New(kt).Elem()
+			nk.SetInt(424242)
+			nv := reflect.New(v.Type().Elem()).Elem()
+			if nv.Kind() == reflect.String {
+				nv.SetString("HAVOC-new")
+			}
+			v.SetMapIndex(nk, nv)
+		case reflect.String:
+			nv := reflect.New(v.Type().Elem()).Elem()
+			if nv.Kind() == reflect.String {
+				nv.SetString("HAVOC-new")
+			}
+			v.SetMapIndex(reflect.ValueOf("havoc-key").Convert(kt), nv)
+		}
+	case reflect.String:
+		if v.CanSet() {
+			v.SetString("HAVOC-" + v.String())
+		}
+	case reflect.Int, reflect.Int32, reflect.Int64:
+		if v.CanSet() {
+			v.SetInt(v.Int() + 17)
+		}
+	case reflect.Bool:
+		if v.CanSet() {
+			v.SetBool(!v.Bool())
+		}
+	}
+}
